@@ -170,11 +170,21 @@ def extra_forms():
          [{"x": 1, "y": "ab"}, {"x": 2}], [{}, {"y": "ab"}, {"x": 0, "y": "ab"}, {"x": 1, "y": "a"}], "nullable-object-first"),
         ([{"type": "object", "properties": {"tags": {"type": "array", "items": {"type": "string"}, "minItems": 2}}}, {"type": "object", "properties": {"tags": {"type": "array", "items": {"type": "string"}, "maxItems": 4}}}], None,
          [{"tags": ["a", "b"]}, {"tags": ["a", "b", "c", "d"]}, {}], [{"tags": ["a"]}, {"tags": ["a", "b", "c", "d", "e"]}], "shared-array-property"),
+        # a member with properties of its own that requires a key declared by ANOTHER member (before / after its own key), by reference and inline
+        ([{"$ref": "#/$defs/Identified"}, {"$ref": "#/$defs/Contact"}], {"Identified": {"type": "object", "properties": {"id": {"type": "string"}, "email": {"type": "string"}}, "required": ["id"]},
+                                                                         "Contact": {"type": "object", "properties": {"phone": {"type": "string"}}, "required": ["email", "phone"]}},
+         [{"id": "1", "email": "e", "phone": "2"}], [{"id": "1", "phone": "2"}, {"id": "1", "email": "e"}, {"email": "e", "phone": "2"}], "cross-member-required/ref"),
+        ([{"type": "object", "properties": {"id": {"type": "string"}, "email": {"type": "string"}}, "required": ["id"]},
+          {"type": "object", "properties": {"phone": {"type": "string"}}, "required": ["phone", "email"]}], None,
+         [{"id": "1", "email": "e", "phone": "2"}], [{"id": "1", "phone": "2"}, {"id": "1", "email": "e"}, {"email": "e", "phone": "2"}], "cross-member-required/inline"),
+        ([{"type": "object", "properties": {"phone": {"type": "string"}}, "required": ["email"]},
+          {"type": "object", "properties": {"id": {"type": "string"}, "email": {"type": "string"}}}], None,
+         [{"email": "e"}, {"id": "1", "email": "e", "phone": "2"}], [{"id": "1", "phone": "2"}, {}], "cross-member-required/requirer-first"),
     ):
         k += 1
         out.append(Case("c11x%d" % k, wrap("allOf", lst, defs), docs_of(goods, bads), fam="allOf/" + tag))
     anyl = [{"type": ["null", "object"], "properties": {"x": {"type": "integer", "minimum": 1}}, "required": ["x"]}, {"type": "object", "properties": {"y": {"type": "string", "minLength": 2}}, "required": ["y"]}]
-    out.append(Case("c11x9", wrap("anyOf", anyl), docs_of([{"x": 1}, {"y": "ab"}], [{}, {"x": 0}, {"y": "a"}]), fam="anyOf/nullable-object-first"))
+    out.append(Case("c11x99", wrap("anyOf", anyl), docs_of([{"x": 1}, {"y": "ab"}], [{}, {"x": 0}, {"y": "a"}]), fam="anyOf/nullable-object-first"))
     return out
 
 
